@@ -77,7 +77,11 @@ def build_driver(race=False):
         tmp = gs.with_name(f"go.sum.{os.getpid()}")
         tmp.write_bytes(want)
         os.replace(tmp, gs)
-    out = BUILD / ("vdriver-race" if race else "vdriver")
+    # one binary per check process: checks may run side by side, and a binary that another process is executing
+    # must not be rewritten under it (seen once: a driver exited at once while another lane rebuilt the shared file)
+    out = BUILD / (("vdriver-race" if race else "vdriver") + f".{os.getpid()}")
+    import atexit
+    atexit.register(lambda: out.exists() and out.unlink())
     cmd = ["go", "build", "-tags", "verif"] + (["-race"] if race else []) + ["-o", str(out), "./cmd/vdriver"]
     t = time.time()
     p = subprocess.run(cmd, cwd=harness, env=go_env(), capture_output=True, text=True)
